@@ -2,7 +2,7 @@
 Domain predicates of C18 clause 4 (`reader_output_accepted_partial`): which operand / reference texts and
 which stored expressions the acceptance theorem covers.  Core-only so that the driver can evaluate them
 (harness/checks/c18.py compares them with an independent Python statement and runs the real tokenizer
-on everything they admit).
+on every text they accept).
 -/
 import NumbersModel.Model.TokenizerCfg
 import NumbersModel.Model.Formula
